@@ -3,6 +3,6 @@ OGGR = ["oggpack_read", "oggpack_bytes"]
 UNITS = [
   Unit("codebook_unpack", ["C02", "C01", "C13"], "lib/codebook.c", extra_src=["lib/sharedbook.c"], enforce="vorbis_staticbook_unpack",
        replace=OGGR + ["ov_ilog", "_book_maptype1_quantvals"],
-       loops="codebook_unpack.loops", reach=4, leak=True, timeout=900, shards=16, flags=["--sat-solver","cadical"], solver=None,
+       loops="codebook_unpack.loops", reach=4, leak=True, timeout=1200, shards=16, tier="thorough", flags=["--sat-solver","cadical"], solver=None,
        note="static codebook unpack: field ranges, entries*dim < 2^24, lengthlist/quantlist sized and in range, no leak on reject"),
 ]
